@@ -1912,6 +1912,13 @@ fn coerce_numeric_types(left: &ArrowDataType, right: &ArrowDataType) -> ArrowDat
     use ArrowDataType::*;
 
     match (left, right) {
+        // Same numeric type on both sides: the evaluator (physical/operators/filter.rs:
+        // coerce_numeric_types, first arm `a == b`) computes in that type, so that is the type
+        // to report. Without this arm Int32 op Int32 was planned as Int64 while the returned
+        // batches carried Int32 (likewise Int16, Int8, Float32).
+        (a, b) if a == b && matches!(a, Int8 | Int16 | Int32 | Int64 | Float32 | Float64) => {
+            a.clone()
+        }
         (Float64, _) | (_, Float64) => Float64,
         (Float32, _) | (_, Float32) => Float64,
         (Decimal128(_, _), _) | (_, Decimal128(_, _)) => Decimal128(38, 10),
